@@ -7,6 +7,7 @@ from __future__ import annotations
 
 import gc
 import random
+import weakref
 
 from .common import torch
 from inferno.learn import MSTDP, MSTDPET, STDP, TripletSTDP
@@ -53,10 +54,10 @@ class Counter:
         self.keep = {}
 
     def watch(self, m):
-        if id(m) in self.n:
+        if id(m) in self.n and self.keep[id(m)]() is m:
             return
         self.n[id(m)] = 0
-        self.keep[id(m)] = m  # keep the id stable for the run
+        self.keep[id(m)] = weakref.ref(m)  # weak: dropped trainers' monitors must be collectable (ids may be reused)
         m.reducer.register_forward_hook(lambda mod, a, o, k=id(m): self.n.__setitem__(k, self.n[k] + 1))
 
     def of(self, m):
@@ -76,6 +77,7 @@ def run_seq(seed, length=14, kinds=None, forced=None):
     fresh = [set(), set()]  # cells that have seen no training step since (re)registration: trainer() may lack data
     cnt = Counter()
     ops = []
+    tt = m = listed = pairs = None
     collided = False  # an eligibility-trace trainer and another trainer have shared a cell (D16 precondition)
     xs = lambda: {"c1": (torch.ones(1, 3),), "c2": (torch.ones(1, 3),)}  # noqa: E731
 
@@ -138,7 +140,8 @@ def run_seq(seed, length=14, kinds=None, forced=None):
                     trainers[1] = None
                     alive[1] = False
                     reg[1] = {}
-                    del t
+                    # no stray strong reference may survive in this frame (loop variables of the checks below)
+                    t = tt = m = listed = pairs = None
                     gc.collect()
             elif kind == "tstep":
                 if t.training and reg[ti] and not (fresh[ti] & set(reg[ti])):
